@@ -161,7 +161,9 @@ func zzSameFamily(fam int, algo SignatureAlgorithm) bool {
 	case 0:
 		return algo == SM2WithSM3 || algo == SM2WithSHA1 || algo == SM2WithSHA256
 	case 1:
-		return algo == SHA1WithRSA || algo == SHA256WithRSA || algo == SHA384WithRSA || algo == SHA512WithRSA ||
+		// MD2/MD5 with RSA are RSA algorithms too: creation must refuse them or produce something that verifies
+		return algo == MD2WithRSA || algo == MD5WithRSA ||
+			algo == SHA1WithRSA || algo == SHA256WithRSA || algo == SHA384WithRSA || algo == SHA512WithRSA ||
 			algo == SHA256WithRSAPSS || algo == SHA384WithRSAPSS || algo == SHA512WithRSAPSS
 	default:
 		return algo == ECDSAWithSHA1 || algo == ECDSAWithSHA256 || algo == ECDSAWithSHA384 || algo == ECDSAWithSHA512
